@@ -18,7 +18,9 @@ pub struct C17;
 
 const METHODS: [&str; 4] = ["single", "complete", "average", "union"];
 
-fn flat_ontology(n: u32) -> Ontology {
+/// terms 1..=n+1; flat (all below 1) or a binary tree (parent of i is i/2), so that input sets can hold a
+/// term together with one of its ancestors
+fn small_ontology(n: u32, tree: bool) -> Ontology {
     let mut b = Builder::new();
     b.new_term("root", 1u32);
     for id in 2..=n + 1 {
@@ -26,18 +28,25 @@ fn flat_ontology(n: u32) -> Ontology {
     }
     let mut b = b.terms_complete();
     for id in 2..=n + 1 {
-        b.add_parent(1u32, id).unwrap();
+        b.add_parent(if tree { id / 2 } else { 1u32 }, id).unwrap();
     }
     b.connect_all_terms().calculate_information_content().unwrap().build_minimal()
 }
 
-/// seeded symmetric distance of two id sets in (0.05, 1.05)
+/// seeded symmetric distance of two id sets. The low 2 bits of the seed select the range:
+/// (0.05, 1.05) | (-0.5, 0.5) (a user distance like 1 - similarity may be negative) | (0, 1000) | (-3, -2)
 fn dist(seed: u64, a: &[u32], b: &[u32]) -> f32 {
     let ha = hash_u64s(&a.iter().map(|x| u64::from(*x)).collect::<Vec<_>>());
     let hb = hash_u64s(&b.iter().map(|x| u64::from(*x)).collect::<Vec<_>>());
     let (x, y) = if ha <= hb { (ha, hb) } else { (hb, ha) };
     let h = hash_u64s(&[seed, x, y]);
-    0.05 + ((h >> 40) as f32) / ((1u64 << 24) as f32)
+    let u = ((h >> 40) as f32) / ((1u64 << 24) as f32);
+    match seed & 3 {
+        0 => 0.05 + u,
+        1 => u - 0.5,
+        2 => u * 1000.0,
+        _ => u - 3.0,
+    }
 }
 
 fn set_ids(s: &HpoSet) -> Vec<u32> {
@@ -82,7 +91,7 @@ impl Monitor for C17 {
     }
     fn mandatory_buckets(&self, _tier: Tier) -> Vec<String> {
         let mut v: Vec<String> = METHODS.iter().map(|m| format!("method/{m}")).collect();
-        for b in ["merge/two_inputs", "merge/input_and_cluster", "merge/two_clusters", "exact_replay_completed", "n/2"] {
+        for b in ["merge/two_inputs", "merge/input_and_cluster", "merge/two_clusters", "exact_replay_completed", "n/2", "distance_range/mixed_sign", "distance_range/negative", "distance_range/large", "input/empty_set", "input/set_with_ancestor_and_descendant"] {
             v.push(b.to_string());
         }
         v
@@ -99,11 +108,18 @@ impl Monitor for C17 {
             (rng.urange(2, tier.pick(12, 40)), rng.usize_below(4))
         };
         let n_terms = 40u32;
-        let ont = flat_ontology(n_terms);
+        let tree = rng.chance(1, 2);
+        let ont = small_ontology(n_terms, tree);
         let dseed = rng.next_u64();
-        // distinct sets
+        out.bucket(["distance_range/positive", "distance_range/mixed_sign", "distance_range/large", "distance_range/negative"][(dseed & 3) as usize]);
+        // distinct sets; one of them may be empty
         let mut sets: Vec<Vec<u32>> = Vec::new();
         let mut seen: BTreeSet<Vec<u32>> = BTreeSet::new();
+        if n >= 3 && rng.chance(1, 4) {
+            sets.push(vec![]);
+            seen.insert(vec![]);
+            out.bucket("input/empty_set");
+        }
         while sets.len() < n {
             let k = rng.urange(1, 5);
             let mut s: Vec<u32> = rng.sample_indices(n_terms as usize, k).iter().map(|i| *i as u32 + 2).collect();
@@ -111,6 +127,10 @@ impl Monitor for C17 {
             if seen.insert(s.clone()) {
                 sets.push(s);
             }
+        }
+        rng.shuffle(&mut sets);
+        if tree && sets.iter().any(|s| s.iter().any(|a| s.iter().any(|b| a != b && { let mut x = *b; let mut anc = false; while x > 1 { x /= 2; if x == *a { anc = true; } } anc }))) {
+            out.bucket("input/set_with_ancestor_and_descendant");
         }
         out.sig = hash_u64s(&[dseed, n as u64, method as u64, hash_u64s(&sets.iter().flatten().map(|x| u64::from(*x)).collect::<Vec<_>>())]);
         out.nontrivial = n >= 3;
@@ -254,7 +274,7 @@ impl Monitor for C17 {
                 }
             }
             let Some(((a, b), bv)) = best else { break };
-            if (second - bv).abs() <= 1e-6 {
+            if (second - bv).abs() <= 1e-6 * bv.abs().max(1.0) {
                 out.bucket("tie_skipped");
                 exact = false;
                 break;
@@ -269,13 +289,25 @@ impl Monitor for C17 {
                 exact = false;
                 break;
             }
-            out.check((mg.distance - bv).abs() <= 1e-6, "C17", &format!("merge_distance/{m}"), || format!("merge {k} ({a},{b}) reports distance {}, model {bv}", mg.distance));
+            out.check((mg.distance - bv).abs() <= 1e-6 * bv.abs().max(1.0), "C17", &format!("merge_distance/{m}"), || format!("merge {k} ({a},{b}) reports distance {}, model {bv}", mg.distance));
             // update
             let new_idx = n + k;
             let sa = live.remove(&a).unwrap();
             let sb = live.remove(&b).unwrap();
             let mut united: Vec<u32> = sa.iter().chain(sb.iter()).copied().collect::<BTreeSet<u32>>().into_iter().collect();
             united.sort_unstable();
+            if method == 3 {
+                // the (k+1)-th callback invocation asks for the distances of the new set: every pair must
+                // contain exactly the union of the two merged sets
+                if let Some(inv) = lg.get(k + 1) {
+                    let ok = !inv.is_empty() && inv.iter().all(|(x, y)| *x == united || *y == united);
+                    out.check(ok, "C17", "union_callback_not_asked_about_the_union", || {
+                        format!("after merge {k} of {sa:?} and {sb:?} the callback was asked about {:?}, expected pairs containing the union {united:?}", inv.iter().take(3).collect::<Vec<_>>())
+                    });
+                } else if live.len() > 0 {
+                    out.violate("C17", "union_callback_missing", format!("no callback invocation after merge {k}"));
+                }
+            }
             for (o, so) in &live {
                 let da = d[&key(*o, a)];
                 let db = d[&key(*o, b)];
